@@ -73,6 +73,8 @@ def run(ctx) -> None:
 
     ctx.rule("C02.replay", "bounded evaluation: after every editing operation of the pool (alone, in ordered pairs, inside contexts, refused ones) all cross-references of the stand-in model agree", floor=1)
     ctx.guard(replayform.check_replay, ctx, "C02.replay", "c02")
+    ctx.rule("C02.effect", "bounded evaluation: each editing operation of a table written from the documentation leaves the named cells of the stand-in model with the documented values and every other cell as it was", floor=1)
+    ctx.guard(replayform.check_effects, ctx, "C02.effect")
     ctx.rule("C02.group", "finite evaluation: Group.add_members adds every given object, remove_members removes exactly those", floor=1)
     ctx.guard(genesform.check_group_members, ctx, "C02.group")
     from . import stores
